@@ -1,6 +1,7 @@
 package main
 
 import (
+	"fmt"
 	"go/token"
 	"go/types"
 
@@ -282,4 +283,156 @@ func immutableBuilderFields(p *Prog) map[string]bool {
 		}
 	}
 	return out
+}
+
+// lockExits runs a may-hold analysis of Builder.mu over fn, entered with the
+// lock held or not, and returns the exits (returns and panics) at which the
+// lock may still be held once deferred unlocks have run.
+type lockExitKey struct {
+	fn   *ssa.Function
+	held bool
+}
+
+var lockExitMemo = map[lockExitKey]map[ssa.Instruction]bool{}
+var lockExitBusy = map[lockExitKey]bool{}
+
+func lockExits(li *lockInfo, fn *ssa.Function, entryHeld bool) map[ssa.Instruction]bool {
+	k := lockExitKey{fn, entryHeld}
+	if r, ok := lockExitMemo[k]; ok {
+		return r
+	}
+	if lockExitBusy[k] || len(fn.Blocks) == 0 {
+		return map[ssa.Instruction]bool{}
+	}
+	lockExitBusy[k] = true
+	defer delete(lockExitBusy, k)
+	mayHeldAfterCall := func(ci ssa.CallInstruction, held bool) bool {
+		switch {
+		case isBuilderMuCall(ci, "Lock"):
+			return true
+		case isBuilderMuCall(ci, "Unlock"):
+			return false
+		}
+		var g *ssa.Function
+		if sc := ci.Common().StaticCallee(); sc != nil {
+			g = sc
+		} else if mc, ok := ci.Common().Value.(*ssa.MakeClosure); ok {
+			g, _ = mc.Fn.(*ssa.Function)
+		}
+		if g != nil && g != fn && li.touches[g] {
+			ex := lockExits(li, g, held)
+			// held after the call iff some return of g may hold it
+			for in := range ex {
+				if _, isRet := in.(*ssa.Return); isRet {
+					return true
+				}
+			}
+			return false
+		}
+		return held
+	}
+	in := map[*ssa.BasicBlock]bool{fn.Blocks[0]: entryHeld}
+	seen := map[*ssa.BasicBlock]bool{fn.Blocks[0]: true}
+	work := []*ssa.BasicBlock{fn.Blocks[0]}
+	atExit := map[ssa.Instruction]bool{}
+	for len(work) > 0 {
+		b := work[0]
+		work = work[1:]
+		held := in[b]
+		for _, ins := range b.Instrs {
+			ci, ok := ins.(ssa.CallInstruction)
+			if !ok {
+				continue
+			}
+			if _, isDefer := ins.(*ssa.Defer); isDefer {
+				continue
+			}
+			if _, isGo := ins.(*ssa.Go); isGo {
+				continue
+			}
+			held = mayHeldAfterCall(ci, held)
+		}
+		switch last := b.Instrs[len(b.Instrs)-1].(type) {
+		case *ssa.Return, *ssa.Panic:
+			if b != fn.Recover {
+				atExit[last] = held
+			}
+		}
+		for _, s2 := range b.Succs {
+			if !seen[s2] {
+				seen[s2] = true
+				in[s2] = held
+				work = append(work, s2)
+			} else if held && !in[s2] {
+				in[s2] = true
+				work = append(work, s2)
+			}
+		}
+	}
+	// deferred calls run at every exit they dominate, last registered first
+	var defers []*ssa.Defer
+	eachInstr(fn, func(x ssa.Instruction) {
+		if d, ok := x.(*ssa.Defer); ok {
+			defers = append(defers, d)
+		}
+	})
+	out := map[ssa.Instruction]bool{}
+	for ex, held := range atExit {
+		for i := len(defers) - 1; i >= 0; i-- {
+			if dominates(defers[i], ex) {
+				held = mayHeldAfterCall(defers[i], held)
+			}
+		}
+		if held {
+			out[ex] = true
+		}
+	}
+	lockExitMemo[k] = out
+	return out
+}
+
+// ruleLockBalanced — no exit with Builder.mu still held.
+func ruleLockBalanced(id string) func(*Checker) {
+	return func(c *Checker) {
+		c.rule(id, "Every function of the bundle package that acquires Builder.mu itself (and is not entered with it held) has released it on every path to every exit — returns and panics alike (a deferred Unlock that dominates the exit counts). A panic or an early return taken with the lock held leaves the builder locked for good: the next Add or Close, instead of being refused or served, blocks forever.", 3)
+		p := c.P
+		li := getLocks(p)
+		n := 0
+		for _, fn := range p.Funcs {
+			if !inBundlePkg(p, fn) || len(fn.Blocks) == 0 || li.entry[fn].Held {
+				continue
+			}
+			locks := false
+			for _, ci := range callsIn(fn) {
+				if _, isDefer := ci.(*ssa.Defer); !isDefer && isBuilderMuCall(ci, "Lock") {
+					locks = true
+				}
+			}
+			if !locks {
+				continue
+			}
+			exitHeld := lockExits(li, fn, false)
+			i := 0
+			for _, b := range fn.Blocks {
+				last := b.Instrs[len(b.Instrs)-1]
+				switch last.(type) {
+				case *ssa.Return, *ssa.Panic:
+				default:
+					continue
+				}
+				if b == fn.Recover {
+					continue
+				}
+				i++
+				n++
+				bad := exitHeld[last]
+				kind := "return"
+				if _, isP := last.(*ssa.Panic); isP {
+					kind = "panic"
+				}
+				c.check(!bad, id, p.FuncName(fn), fmt.Sprintf("exit %d (%s) with the lock released", i, kind), p.Pos(last.Pos()), "Builder.mu is not held on any path to this exit", "Builder.mu can still be held at this "+kind+": the builder stays locked, and the next call on it (which ought to be refused with a panic, or served) blocks forever")
+			}
+		}
+		_ = n
+	}
 }
